@@ -6,7 +6,9 @@ set -u
 D="$1"
 export GOFLAGS=-mod=mod GOPROXY=off GOSUMDB=off GOTOOLCHAIN=local
 WT=$(mktemp -d /tmp/seedwt.XXXXXX); rmdir "$WT"
-git -C /repo worktree add -q --detach "$WT" HEAD || exit 2
+# several confirmations may run at once: "worktree add" takes a repository lock, so retry
+for try in 1 2 3 4 5 6; do git -C /repo worktree add -q --detach "$WT" HEAD 2>/dev/null && break; sleep $((try*2)); done
+[ -d "$WT" ] || { echo "RESULT $D: could not create a scratch worktree"; exit 2; }
 trap 'git -C /repo worktree remove --force "$WT" >/dev/null 2>&1; git -C /repo worktree prune' EXIT
 demo_dir=$(python3 -c "import json,sys;print(json.load(open('$D/meta.json'))['demo_dir'])")
 demo_dir=${demo_dir%/}
